@@ -256,6 +256,43 @@ pub fn run(tier: Tier) -> i32 {
         total.merge(check_family("P2", &states, true));
     }
 
+    {
+        // The difference rule (first sentence of the property) is stated for ALL reachable
+        // sets, not only under C03's condition: every set reachable over a pool whose origins
+        // have gaps of more than one hour, in any selection and order, on both sources, plus
+        // what a purge makes of it. This is where a replica holds an old entry for a key while
+        // its cut-off for that origin has moved past the peer's newer one.
+        let depth = tier.pick(5, 6);
+        let plain = p2_states(&crate::c04::pool(), depth);
+        let mut mixed: Vec<Labeled> = Vec::new();
+        let mut seen = std::collections::HashSet::new();
+        for s in &plain {
+            let mut set = s.set.clone();
+            if set.purge_old_deletes().is_empty() {
+                continue;
+            }
+            let snap = set.verif_snapshot();
+            if seen.insert(snap.clone()) {
+                mixed.push(Labeled { built_by: Prov::Purged(Box::new(s.built_by.clone())), prefix: s.prefix.clone(), set, snap });
+            }
+        }
+        total.add("purged_states", mixed.len() as u64);
+        mixed.extend(plain);
+        families.push(
+            J::obj()
+                .set("family", format!("P3 (difference rule only): every set reachable in <= {depth} steps over the 10-operation pool with >1h gaps, any order, both sources, + purged"))
+                .set("states", mixed.len()),
+        );
+        let behind = mixed
+            .iter()
+            .filter(|s| {
+                s.snap.entries.iter().chain(s.snap.dead.iter()).any(|(_, t)| s.snap.safe_stamps.iter().any(|(n, c)| *n == t.node() && t < c))
+            })
+            .count();
+        total.add("p3_states_holding_an_entry_behind_their_own_cut_off", behind as u64);
+        total.merge(check_family("P3", &mixed, false));
+    }
+
     let states = total.get("states");
     let pairs = total.get("pairs");
     let transitions = total.get("transitions");
@@ -280,6 +317,8 @@ pub fn run(tier: Tier) -> i32 {
     report.guard_nonzero("guard_pairs_with_nonempty_diff", nonempty);
     report.guard_nonzero("guard_pairs_with_both_lists", both);
     report.guard_nonzero("guard_purged_states", purged);
+    let behind = report.cover_get("p3_states_holding_an_entry_behind_their_own_cut_off");
+    report.guard_nonzero("guard_p3_states_holding_an_entry_behind_their_own_cut_off", behind);
     report.assume(
         "the actor's batch handling (filter by will_apply at batch start, sort by stamp, apply on source 1) is \
          restated in 12 lines of harness code here; its agreement with the real actor is what C02/C01 check",
